@@ -132,6 +132,23 @@ def bounded(tier, seed):
             if len(samples) < 2:
                 samples.append({"options": {kk: (vv.value if hasattr(vv, "value") else vv) for kk, vv in o.items()},
                                 "entries": sorted(r)})
+        # the same comparison on a document that is already a fixed point of the formatter (nothing to change is not
+        # "nothing to output")
+        from flowmark.reformat_api import reformat_text as _rt
+        for o in pts[:6]:
+            fixed = _rt(OPTION_DOC, **o)
+            r = entry_points(o, d, doc=fixed)
+            evals += len(r) - 1
+            for k, v in r.items():
+                if k in ("text", "file_api:inplace.orig"):
+                    continue
+                want = r["text"] if k != "files_api:two_inplace" else r["text"] + "\x00" + r["text"]
+                if k == "cli:stdin+file":
+                    want = r["text"] + r["text"]
+                if v != want:
+                    violations.append({"clause": "entry_points_agree", "entry": k, "already_formatted": True,
+                                       "input": {kk: (vv.value if hasattr(vv, "value") else vv) for kk, vv in o.items()},
+                                       "got": v[:300], "want": want[:300]})
         for w, r1, r2, a, b, orig in auto_points(d):
             evals += 1
             if r1 != 0 or r2 != 0 or a != b or orig:
